@@ -100,6 +100,11 @@ pub use nsec::NSEC;
 mod dhcid;
 pub use dhcid::DHCID;
 
+#[cfg(simple_dns_verif)]
+pub use ipseckey::Gateway as VerifGateway;
+#[cfg(simple_dns_verif)]
+pub use nsec::TypeBitMap as VerifTypeBitMap;
+
 pub(crate) trait RR {
     const TYPE_CODE: u16;
 }
